@@ -971,7 +971,7 @@ func (w *World) observeSync(rc *Recorder, f func() error) {
 		}
 	}
 	in := L(I(int64(ps)), I(w.cfg.MaxSyncWALBytes), I(dbPages), U(pos), prevSx,
-		B(st.SyncedToWALEnd), B(werr == nil), SxBytes(wal), B(fdigP), U(fdig), I(st.LastSyncedWALOffset))
+		B(st.SyncedToWALEnd), B(werr == nil), SxBytes(wal), B(fdigP), U(fdig), B(st.ReachedWALEnd))
 	obs := L(I(0))
 	if first != nil {
 		pg := make(SxList, 0, len(first.pgnos))
@@ -1146,6 +1146,16 @@ var ckptWindowScripts = func() (l [][2]string) {
 			l = append(l, [2]string{"ckpt-error-exit-after-pragma:" + mode,
 				fmt.Sprintf("OPEN S W W SW INJ=%d INJW=pt.ckpt.bump CK-%s WT- S SW W SW", k, mode)})
 		}
+	}
+	// a re-opened session catching up in chunks (MaxSyncWALBytes = 1) over a WAL that was fully
+	// checkpointed while litestream was away: after the first chunk an application commit restarts the
+	// WAL (read mark 0) and the uncopied rest of the old WAL is gone (Db/Machine.v
+	// reopen_catchup_restart_refuted, F18; fixed in /repo c55c7c6)
+	for _, mode := range []string{"PASSIVE", "FULL", "RESTART"} {
+		l = append(l, [2]string{"reopen-catchup-restart#4096,0,1000,0,0,1",
+			"OPEN S W SW REOPEN W W ACK-" + mode + " OPEN S1 W SW"})
+		l = append(l, [2]string{"reopen-catchup-restart#4096,0,1000,0,0,1",
+			"OPEN S W SW REOPEN W W W ACK-" + mode + " OPEN S1 U SW S1 S1 SW"})
 	}
 	// the long-running read transaction must survive the end of the call that acquired it (every
 	// litestream op of this harness runs under its own context, cancelled when the op returns): an
@@ -1438,7 +1448,11 @@ func main() {
 				err = runCloseBeforeFirstSync(rc, dir, rng)
 			} else if i <= len(ckptWindowScripts) {
 				sc := ckptWindowScripts[i-1]
-				err = runScriptAs(rc, dir, rng, sc[1], "4096,0,1000,0,0,0", sc[0])
+				label, cfgs := sc[0], "4096,0,1000,0,0,0"
+				if k := strings.Index(label, "#"); k >= 0 { // "label#ps,av,min,trunc,interval,maxb"
+					label, cfgs = label[:k], label[k+1:]
+				}
+				err = runScriptAs(rc, dir, rng, sc[1], cfgs, label)
 			} else {
 				err = runC01(rc, dir, rng, *steps)
 			}
